@@ -12,6 +12,6 @@ CONSTANTS
   StaleMode = "fail"
   KeyCheck = TRUE
   Timeout = FALSE
-  Depth = 8
+  Depth = 9
 INVARIANT Emit
 CHECK_DEADLOCK FALSE
